@@ -7,6 +7,7 @@ import Iec.Drv.Locks
 import Iec.Drv.Link101
 import Iec.Drv.Q101
 import Iec.Drv.FileSrv
+import Iec.Drv.HpQueue
 /-
 iecdrv — line-protocol driver: one operation per input line, one canonical result
 line per operation.  The C harnesses execute the same lines on the real code; the
@@ -21,6 +22,7 @@ structure DrvState where
   ll : Iec.Drv.Link101.St := {}
   q : Option Iec.Q101.Q := none
   fs : Iec.Drv.FileSrv.St := {}
+  hq : Option Iec.Queues.HpQueue := none
 
 def dispatch (st : DrvState) (ws : List String) : DrvState × String :=
   match ws with
@@ -53,7 +55,10 @@ def dispatch (st : DrvState) (ws : List String) : DrvState × String :=
                     | none =>
                       match Iec.Drv.FileSrv.handle st.fs ws with
                       | some (a, s) => ({ st with fs := a }, s)
-                      | none => (st, "bad-op")
+                      | none =>
+                        match Iec.Drv.HpQueue.handle st.hq ws with
+                        | some (a, s) => ({ st with hq := a }, s)
+                        | none => (st, "bad-op")
 
 partial def loop (h : IO.FS.Stream) (out : IO.FS.Stream) (st : DrvState) : IO Unit := do
   let line ← h.getLine
